@@ -5,6 +5,7 @@ use std::path::Path;
 pub mod c08;
 pub mod c09;
 pub mod c10;
+pub mod c14;
 pub mod c15;
 pub mod c20;
 
@@ -13,6 +14,7 @@ pub fn run(session: &Session) -> i32 {
         "C08" => c08::run(session),
         "C09" => c09::run(session),
         "C10" => c10::run(session),
+        "C14" => c14::run(session),
         "C15" => c15::run(session),
         "C20" => c20::run(session),
         other => {
@@ -27,6 +29,7 @@ pub fn replay(session: &Session, path: &Path) -> i32 {
         "C08" => crate::engine::replay(session, &c08::C08, path),
         "C09" => crate::engine::replay(session, &c09::C09, path),
         "C10" => crate::engine::replay(session, &c10::C10, path),
+        "C14" => crate::engine::replay(session, &c14::C14, path),
         "C15" => crate::engine::replay(session, &c15::C15, path),
         "C20" => crate::engine::replay(session, &c20::C20, path),
         other => {
